@@ -172,7 +172,7 @@ func RunRaceBinary(seed int64, thorough bool) RaceReport {
 		blocks, worlds = "150", "4"
 	}
 	cmd := exec.Command(bin, "racerun", fmt.Sprint(seed), blocks, worlds)
-	cmd.Env = append(os.Environ(), "GORACE=halt_on_error=0 log_path="+filepath.Join(dir, "race.log"))
+	cmd.Env = append(os.Environ(), "GORACE=halt_on_error=0 exitcode=0 log_path="+filepath.Join(dir, "race.log"))
 	out, err := cmd.CombinedOutput()
 	rep.Ran = true
 	if err != nil {
